@@ -20,12 +20,21 @@ package rebase
 // the records. The oracle is the description (c16Doc) the text was made from.
 // The distributed sample data/rebase_test.txt is checked as well, against a
 // small independent reader of the same layout.
+//
+// Besides single reads there are HISTORIES on one path (c16History): three
+// listings are written to the same path one after the other - of the same byte
+// length and with the same modification time (os.Chtimes), or only one of the
+// two, or neither - and the path is read through Read after every write; each
+// Read must return the records of the listing in the file now (classes
+// path-reused-same-size-and-mtime, path-reused-same-size,
+// path-reused-same-mtime, path-reused).
 
 import (
 	"encoding/json"
 	"fmt"
 	"io/ioutil"
 	"math/rand"
+	"os"
 	"path/filepath"
 	"reflect"
 	"regexp"
@@ -33,6 +42,7 @@ import (
 	"strconv"
 	"strings"
 	"testing"
+	"time"
 )
 
 const c16Title = "REBASE codes for commercial sources of enzymes"
@@ -53,6 +63,10 @@ type c16Doc struct {
 	suppliers []c16Supplier
 	recs      []c16Rec
 	noFinalNL bool // the file ends with its last non-empty line, without a line terminator
+	// pathClass, when not empty, says that the listing is read through Read from
+	// a path that held another listing before (a history on one path) and names
+	// that shape; pathText describes the history
+	pathClass, pathText string
 }
 
 func c16Word(rng *rand.Rand, alpha string, min, max int) string {
@@ -279,6 +293,9 @@ func c16Describe(d c16Doc, r *c16Rec) string {
 	if d.noFinalNL {
 		s += ", no final newline (last line: " + c16LastLine(d) + ")"
 	}
+	if d.pathText != "" {
+		s += ", " + d.pathText
+	}
 	if r != nil {
 		s += fmt.Sprintf("; record <1>%s <2>%s <3>%s <4>%s <5>%s <6>%s <7>%s <8>%s", r.name, c16Clip(r.iso), r.site, r.meth, r.org, r.source, r.letters, c16Clip(r.refs[0]))
 	}
@@ -338,6 +355,22 @@ func c16CheckDoc(rec, sup *verifRun, d c16Doc, text []byte, parse func([]byte) m
 		}
 		return nlState == 1
 	}
+	// pathOnly (decided once, on demand): does Parse on the very bytes that are
+	// in the file satisfy both clauses? Then what makes the listing fail is that
+	// it is read from a path that held another listing before.
+	pathState := 0
+	pathOnly := func() bool {
+		if pathState == 0 {
+			pathState = 2
+			func() {
+				defer func() { _ = recover() }()
+				if reflect.DeepEqual(c16Normal(Parse(text)), c16Normal(c16Expected(d))) {
+					pathState = 1
+				}
+			}()
+		}
+		return pathState == 1
+	}
 	panicClass := "panic"
 	if d.noFinalNL {
 		panicClass = "panic-without-final-newline"
@@ -348,6 +381,9 @@ func c16CheckDoc(rec, sup *verifRun, d c16Doc, text []byte, parse func([]byte) m
 	// Shape of a failing listing for the records clause: a listing without final
 	// newline whose failure goes away when the line terminator is added.
 	recClass := func(class string) string {
+		if d.pathClass != "" && pathOnly() {
+			return d.pathClass
+		}
 		if d.noFinalNL && nlOnly() {
 			return "no-final-newline"
 		}
@@ -365,7 +401,9 @@ func c16CheckDoc(rec, sup *verifRun, d c16Doc, text []byte, parse func([]byte) m
 	// letter) when the table is indented with a tab instead of blanks, or when
 	// another supplier line is put in front of the first one?
 	var supClasses []string
-	if w0 := c16Wrong(d, got); len(w0) > 0 && d.noFinalNL && nlOnly() {
+	if w0 := c16Wrong(d, got); len(w0) > 0 && d.pathClass != "" && pathOnly() {
+		supClasses = []string{d.pathClass}
+	} else if len(w0) > 0 && d.noFinalNL && nlOnly() {
 		supClasses = []string{"no-final-newline"}
 	} else if len(w0) > 0 {
 		tabbed, shifted, both := d, d, d
@@ -430,6 +468,9 @@ func c16CheckDoc(rec, sup *verifRun, d c16Doc, text []byte, parse func([]byte) m
 			// the record come after one that has supplier letters?
 			if d.noFinalNL && nlOnly() {
 				emptyClass = "no-final-newline"
+			}
+			if d.pathClass != "" && pathOnly() {
+				emptyClass = d.pathClass
 			}
 			sup.Fail(emptyClass, c16Describe(d, r)+fmt.Sprintf(" (record %d of the listing)", i+1), fmt.Sprintf("empty <7> field decoded to %q, want no supplier", g.CommercialAvailability))
 			continue
@@ -612,13 +653,135 @@ func c16ReadSample(text string) c16Doc {
 	return d
 }
 
+// c16Stamp is the modification time given to the file after every write of a
+// history with a pinned time (a whole second: every file system stores it).
+var c16Stamp = time.Date(2021, 4, 25, 12, 0, 0, 0, time.UTC)
+
+// history variants: which of byte length and modification time the successive
+// listings on the path share
+var c16HistoryVariants = []struct {
+	size                 int // 0 as it comes, 1 the same for all three listings, 2 different from one write to the next
+	pinTime, sameRecords bool
+	class, text          string
+}{
+	{1, true, false, "path-reused-same-size-and-mtime", "three unrelated listings of the same byte length, same modification time"},
+	{1, false, false, "path-reused-same-size", "three unrelated listings of the same byte length, modification time left to the file system"},
+	{1, true, true, "path-reused-same-size-and-mtime", "a listing, the same listing with the letters of every recognition sequence exchanged (A>C>G>T>A), the first listing again; same byte length, same modification time"},
+	{2, true, false, "path-reused-same-mtime", "three unrelated listings, byte length different from one write to the next, same modification time"},
+	{1, false, true, "path-reused-same-size", "a listing, the same listing with the letters of every recognition sequence exchanged, the first listing again; same byte length, modification time left to the file system"},
+	{0, false, false, "path-reused", "three unrelated listings, byte length and modification time as they come"},
+}
+
+// c16History writes three listings to ONE path, one after the other, and reads
+// the path through Read after every write: each Read must return one entry per
+// record of the listing that is in the file NOW (records and suppliers clauses,
+// judged as for any other listing). For the same-length variants the shorter
+// listings get letters appended to their first header line (header prose is
+// free text). For the pinned variants os.Chtimes sets the same modification
+// time after every write. Even histories overwrite the file in place, odd ones
+// write a new file next to it and rename it over the path. Length and time of
+// the file are confirmed with os.Stat before each Read.
+func c16History(t *testing.T, rec, sup *verifRun, dir string, seed int64, h, maxRecs int) {
+	variant := c16HistoryVariants[h%len(c16HistoryVariants)]
+	rng := rand.New(rand.NewSource(seed*1000003 + 3000000 + int64(h)))
+	path := filepath.Join(dir, "history-"+strconv.Itoa(h)+".txt")
+	indents := []string{"                ", "\t"}
+	draw := func() c16Shape {
+		n := rng.Intn(maxRecs + 1)
+		if h%5 != 0 { // mostly small
+			n = rng.Intn(9)
+		}
+		return c16Shape{nRecs: n, indent: indents[rng.Intn(2)], nSupp: 1 + rng.Intn(26), maxLett: 15, maxIso: 4, emptyBias: []int{0, 10}[rng.Intn(2)], headerN: 1 + rng.Intn(6)}
+	}
+	var docs []c16Doc
+	if variant.sameRecords {
+		sh := draw()
+		if sh.nRecs == 0 {
+			sh.nRecs = 1
+		}
+		first := c16NewDoc(rng, sh)
+		if first.recs[0].site == "" { // at least one recognition sequence to exchange
+			first.recs[0].site = "GG^CC"
+		}
+		second := first
+		second.recs = append([]c16Rec(nil), first.recs...)
+		for i := range second.recs {
+			second.recs[i].site = strings.NewReplacer("A", "C", "C", "G", "G", "T", "T", "A").Replace(second.recs[i].site)
+		}
+		docs = []c16Doc{first, second, first}
+	} else {
+		for k := 0; k < 3; k++ {
+			docs = append(docs, c16NewDoc(rng, draw()))
+		}
+	}
+	most := 0
+	for _, d := range docs {
+		if n := len(c16Write(d)); n > most {
+			most = n
+		}
+	}
+	for k := range docs {
+		d := &docs[k]
+		d.header = append([]string(nil), d.header...)
+		switch n := len(c16Write(*d)); {
+		case variant.size == 1:
+			d.header[0] += strings.Repeat("x", most-n)
+		case variant.size == 2 && k > 0 && n == len(c16Write(docs[k-1])):
+			d.header[0] += "x"
+		}
+	}
+	var prevSize int64
+	var prevTime time.Time
+	for k, d := range docs {
+		text := c16Write(d)
+		if h%2 == 0 {
+			if err := ioutil.WriteFile(path, text, 0644); err != nil {
+				t.Fatal(err)
+			}
+		} else {
+			if err := ioutil.WriteFile(path+".new", text, 0644); err != nil {
+				t.Fatal(err)
+			}
+			if err := os.Rename(path+".new", path); err != nil {
+				t.Fatal(err)
+			}
+		}
+		if variant.pinTime {
+			if err := os.Chtimes(path, c16Stamp, c16Stamp); err != nil {
+				t.Fatal(err)
+			}
+		}
+		info, err := os.Stat(path)
+		if err != nil {
+			t.Fatal(err)
+		}
+		if k > 0 && (variant.size == 1 && info.Size() != prevSize || variant.size == 2 && info.Size() == prevSize || variant.pinTime && !info.ModTime().Equal(prevTime)) {
+			t.Errorf("harness: history %d step %d: the file does not have the length / modification time the variant states", h, k+1)
+		}
+		prevSize, prevTime = info.Size(), info.ModTime()
+		d.pathText = fmt.Sprintf("history on one path (%s; %s), step %d of 3, file of %d bytes", variant.text, []string{"file overwritten in place", "new file renamed over the path"}[h%2], k+1, len(text))
+		if k > 0 {
+			d.pathClass = variant.class
+		}
+		c16CheckDoc(rec, sup, d, text, func([]byte) map[string]Enzyme {
+			m, err := Read(path)
+			if err != nil {
+				t.Fatal(err)
+			}
+			return m
+		}, fmt.Sprintf("Read history=%d step=%d %s", h, k+1, variant.class))
+	}
+}
+
 func TestVerifC16(t *testing.T) {
 	thorough := verifThorough()
 	seed := verifSeed()
 	dir := t.TempDir()
 	nRandom := 150
+	nHist, histMaxRecs := 120, 60
 	if thorough {
 		nRandom = 6000
+		nHist, histMaxRecs = 3000, 300
 	}
 	patterns := []string{"L-", "L--", "L---", "L-----", "L-L", "L-L-", "L--L--", "-L-", "--L--", "LL-", "LLL---", "L-xxxx-", "xL-x-x-L--"}
 	indents := []string{"                ", "                ", "\t", "\t\t", " ", "    ", "\t\t\t\t", "        "}
@@ -626,7 +789,10 @@ func TestVerifC16(t *testing.T) {
 		"supplier table of 0..26 lines (distinct code letters A..Z in alphabetical order, name of 1..4 words plus a date) indented with 16 spaces (distributed layout), 1, 4 or 8 spaces, or 1, 2 or 4 tabs; 0..15 distinct letters per <7> field, all from the table; " +
 		"any of <2>..<8> empty with probability 0/10/50 % per listing; " +
 		"empty <7> fields after supplier letters: besides what the 10 % and 50 % listings contain, 78 small listings (2..10 records, table of 1, 3 or 15 suppliers, 16 spaces or a tab) whose records follow the patterns " + strings.Join(patterns, " ") + " (L = <7> field with 1..15 letters, - = empty <7> field, x = either), i.e. an empty field directly after a record with letters and with 1..4 further empty-field records in between, before and after further records with letters; 1..4 reference lines per record (only the first is tagged); every 9th listing read through Read on a temp file; " +
-		"final newline: all of the above end with a blank line, and in addition listings that end WITHOUT a final newline right after the last record's <8> line or after its last reference continuation line (with no record: after the last supplier, title or header line): the small shapes (0..3 records, so single-record listings too, x 0..3 suppliers x spaces/tab) in both endings, every record count 0..300 once in each ending, and " + strconv.Itoa(nRandom/3) + " further seeded listings; plus the distributed sample data/rebase_test.txt against an independent reader"
+		"final newline: all of the above end with a blank line, and in addition listings that end WITHOUT a final newline right after the last record's <8> line or after its last reference continuation line (with no record: after the last supplier, title or header line): the small shapes (0..3 records, so single-record listings too, x 0..3 suppliers x spaces/tab) in both endings, every record count 0..300 once in each ending, and " + strconv.Itoa(nRandom/3) + " further seeded listings; plus the distributed sample data/rebase_test.txt against an independent reader; " +
+		"histories on one path: " + strconv.Itoa(nHist) + " seeded histories in which three listings (0..8 records, every fifth history 0.." + strconv.Itoa(histMaxRecs) + "; table of 1..26 suppliers; 1..6 header lines) are written to the SAME path one after the other and the path is read through Read after every write: each Read must give one entry per record of the listing in the file NOW, with its fields and suppliers; " +
+		"six variants in turn: (a) unrelated listings brought to exactly the same byte length (letters appended to the first header line) with the modification time set to the same whole second by os.Chtimes after every write, (b) same length, time left to the file system, (c) a listing, the same listing with the letters of every recognition sequence exchanged, the first listing again, same length, time pinned, (d) different lengths, time pinned, (e) as (c) with the time left to the file system, (f) length and time as they come; " +
+		"even histories overwrite the file in place, odd ones rename a new file over the path; length and time are confirmed with os.Stat before each Read; a failure at the 2nd or 3rd step that Parse on the file's bytes does not show is classed path-reused-same-size-and-mtime (a, c), path-reused-same-size (b, e), path-reused-same-mtime (d), path-reused (f)"
 	rec := newVerifRun("C16", "io/rebase.Parse/post/records", dom+"; compared per record: key, name, isoschizomer list (an empty <2> field may come back as nil, [] or [\"\"]), recognition sequence, methylation site, organism, source, first reference; entry count; non-trivial = at least one record")
 	sup := newVerifRun("C16", "io/rebase.Parse/post/suppliers", dom+"; compared per record: CommercialAvailability == names of the <7> letters, in order, from the file's own table (nil and empty equal), so a record with an empty <7> field has no supplier whatever the records before it have (a supplier reported for an empty field is classed empty-supplier-field-after-suppliers when an earlier record of the listing has letters, else empty-supplier-field); non-trivial = at least one record with a supplier letter")
 	ex := newVerifRun("C16", "io/rebase.Export/post/json-roundtrip", "json.Unmarshal(Export(m)) == m (nil and empty lists equal) for m = the result of Parse on each listing above, and m = the map the listing describes built directly (suppliers decoded by the oracle), and the empty map; non-trivial = non-empty map")
@@ -770,6 +936,10 @@ func TestVerifC16(t *testing.T) {
 			n = nrng.Intn(30)
 		}
 		runNoNL(shape(nrng, n), 0)
+	}
+	// histories on one path (own index range and streams: everything above stays what it was)
+	for h := 0; h < nHist; h++ {
+		c16History(t, rec, sup, dir, seed, h, histMaxRecs)
 	}
 	c16CheckExport(ex, map[string]Enzyme{}, "empty map")
 
